@@ -6,6 +6,11 @@ ids = [json.loads(l)["id"] for l in open(os.path.join(HERE, "properties.jsonl"))
 
 # id -> (category, technique, level text, level note, design ref)
 CLAIMED = {
+ "C04": ("exploration",
+         "stateful property-based testing with fault-style message injection; oracle = canonical full-state equality (hook) before/after every rejected call, on a clone and on the member, then acceptance of the genuine message and continued N-way agreement",
+         "Generated histories with injected messages that must be rejected at every pipeline stage (field-addressed corruptions of app/proposal/commit messages in both wire formats, duplicates, own messages, old-epoch replays, commits with a missing PSK or a refused credential, corrupted commits while holding a pending commit / update / cached proposals) and refused builds; the complete member state (public, private, secrets incl. ratchets, pending parts, prior-epoch cache) must be canonically identical before and after, and the genuine traffic must still be accepted.",
+         "Canonical equality is defined by the hook (decoded values; secret tree normal form; clean cached prior epochs ignored). One root cause is a listed known finding (message key consumed before the message is accepted).",
+         "DESIGN.md §4 C04"),
  "C13": ("exploration",
          "differential property-based testing of the library's pure derivations (hook) against an independent RFC 9420 implementation on bare SHA-2/HMAC, calibrated on the IETF vectors; end-to-end recomputation on live groups",
          "Random inputs to every derivation (key schedule, PSK chain, secret tree nodes, ratchet keys/nonces up to generation 2000, exporter, sender-data key, tags, transcript hashes) for all 7 suites and all providers are compared byte for byte with an independent implementation; on live groups the public commit message and the previous epoch's secrets reproduce every secret of the next epoch.",
